@@ -468,6 +468,9 @@ class StateMachine:
         # Indicates that the state machine is currently executing
         self.__engaged = False
 
+        # Number of next_state_now() calls currently in progress
+        self.__nested = 0
+
         # A dictionary of states
         self.__states = states
 
@@ -547,7 +550,13 @@ class StateMachine:
         """
         self.next_state(state)
         # TODO: may want to do this differently?
-        self.execute()
+        # The engage() request belongs to the whole iteration: the nested
+        # execute() must leave it for the state function that called us
+        self.__nested += 1
+        try:
+            self.execute()
+        finally:
+            self.__nested -= 1
 
     def done(self) -> None:
         """Call this function to end execution of the state machine.
@@ -659,8 +668,10 @@ class StateMachine:
             # or clear the state
             self.done()
 
-        # Reset this each time
-        self.__should_engage = False
+        # Reset this each time (at the end of the iteration, not of an
+        # execute() nested in next_state_now())
+        if not self.__nested:
+            self.__should_engage = False
 
 
 class AutonomousStateMachine(StateMachine):
